@@ -80,10 +80,11 @@ def _one(item):
             return ("export_raised", f"{top}: {short_exc(e)}")
         if got != fresh[top]:
             return ("differs", f"package of {top} differs from the package of a fresh build")
-        # ... and exporting again changes nothing
-        again = h.to_proto(built.modules[top]).SerializeToString(deterministic=True)
-        if again != got:
-            return ("not_idempotent", f"second export of {top} differs from the first")
+        # ... and exporting again changes nothing (checked on the modules nothing else instantiates)
+        if top in ("T", "T2", "C2", "P", "Q"):
+            again = h.to_proto(built.modules[top]).SerializeToString(deterministic=True)
+            if again != got:
+                return ("not_idempotent", f"second export of {top} differs from the first")
     # an elaborated module still shows its bundle-level ports to new parents
     r = new_parent_check(h, design, built, dname)
     if r:
@@ -115,6 +116,9 @@ def new_parent_check(h, design, built, dname):
         ("sig", "bus", pw), ("sig", "s1", 1), ("sig", "v2", 2), ("binst", "nb", bname),
         ("inst", "i0", ("mod", mid), [(port, sig("bus")), (bport, bexpr("nb"))]),
         ("inst", "i1", ("mod", mid), [(port, sig("bus")), (bport, anonv)]),
+        # ... and by port references only: an implicit bundle-valued net between two instances
+        ("inst", "i2", ("mod", mid), [(port, sig("bus"))]),
+        ("inst", "i3", ("mod", mid), [(port, sig("bus")), (bport, ("pref", "i2", bport))]),
         probe("pb", "bus", pw, 3), probe("ps", "s1", 1, 4), probe("pv", "v2", 2, 5),
     ]}
     d2["top"] = "NewP"
